@@ -186,6 +186,49 @@ fn name_families(table: &Table, tname: &str, st: &mut Stats) {
     }
 }
 
+/// identifiers and spellings that the float types' own `FromStr` would read as numbers, through
+/// the real float instantiations: whether a text is a variable or a number is decided by the
+/// tokenizer alone, at every entry point (`eval_str` of a text with a variable is an error)
+pub const FLOAT_LOOKALIKES: &[&str] = &[
+    "nan", "NaN", "NAN", "inf", "Inf", "INF", "infinity", "Infinity", "-inf", "+inf", "-nan", "- infinity", "1e3", "2E-2", ".5e1", "1e+3", "1e", "e1", "0x10", "1_000", "inf+1", "2*nan", "nan*inf", "(inf)", " nan ",
+    "{inf}", "x+infinity", "1.5e3*x", "4.", "2.*x", "x+1.", ".5", "4.5.", "1..2",
+];
+
+fn float_lookalikes(table: &Table, st: &mut Stats) {
+    for text in FLOAT_LOOKALIKES {
+        st.bump("cases");
+        st.bump("family: float look-alikes through f64 / f32");
+        let want: Option<Vec<String>> = model::parse(text, table, Lits::Number).ok().map(|t| t.vars());
+        let entry = |name: &'static str, r: Result<Result<Vec<String>, ()>, String>| -> Option<String> {
+            match (r, &want) {
+                (Err(m), _) => Some(format!("{name} panicked: {m}")),
+                (Ok(Ok(got)), Some(w)) if &got == w => None,
+                (Ok(Err(())), None) => None,
+                (Ok(Ok(got)), Some(w)) => Some(format!("{name} reads variables {got:?}, documented reading {w:?}")),
+                (Ok(Ok(got)), None) => Some(format!("{name} accepts the text (variables {got:?}), the documented grammar rejects it")),
+                (Ok(Err(())), Some(w)) => Some(format!("{name} rejects the text, documented reading: variables {w:?}")),
+            }
+        };
+        let mut problems: Vec<String> = vec![];
+        problems.extend(entry("FlatEx::<f64>::parse", catch(|| FlatEx::<f64>::parse(text).map(|e| e.var_names().to_vec()).map_err(|_| ()))));
+        problems.extend(entry("FlatEx::<f32>::parse", catch(|| FlatEx::<f32>::parse(text).map(|e| e.var_names().to_vec()).map_err(|_| ()))));
+        problems.extend(entry("FlatEx::<f64>::parse_wo_compile", catch(|| FlatEx::<f64>::parse_wo_compile(text).map(|e| e.var_names().to_vec()).map_err(|_| ()))));
+        problems.extend(entry("DeepEx::<f64>::parse", catch(|| exmex::DeepEx::<f64>::parse(text).map(|e| e.var_names().to_vec()).map_err(|_| ()))));
+        // eval_str has no values to bind: Ok iff the documented reading has no variables
+        for (name, ok) in [("eval_str::<f64>", catch(|| exmex::eval_str::<f64>(text).is_ok())), ("eval_str::<f32>", catch(|| exmex::eval_str::<f32>(text).is_ok()))] {
+            let should = matches!(&want, Some(w) if w.is_empty());
+            match ok {
+                Err(m) => problems.push(format!("{name} panicked: {m}")),
+                Ok(o) if o != should => problems.push(format!("{name} returns {} although the documented reading {}", if o { "a value" } else { "an error" }, match &want { Some(w) if w.is_empty() => "is a variable-free expression".to_string(), Some(w) => format!("has the variables {w:?}"), None => "rejects the text".to_string() })),
+                _ => {}
+            }
+        }
+        if let Some(p) = problems.first() {
+            st.violation(format!("float-lookalike|{text}|{}", p.split(' ').next().unwrap_or("")), text.len(), json!({"kind": "lexical-float-type", "text": text, "problems": problems}));
+        }
+    }
+}
+
 fn sign_chains(table: &Table, tname: &str, st: &mut Stats) {
     let duals: Vec<&str> = table.iter().filter(|o| o.bin.is_some() && o.un.is_some()).map(|o| o.name).collect();
     if duals.is_empty() {
@@ -273,12 +316,15 @@ pub fn run(ctx: &Ctx) -> i32 {
         install(table);
         literal_spellings(ctx, w, table, tname, st);
         if w == 0 {
+            float_lookalikes(table, st);
+        }
+        if w == 0 {
             st.sample(json!({"table": "default-float-names", "text": "sin4+sin 4+sin(4)", "documented_reading": "variable sin4, sin applied to 4 twice"}));
             st.sample(json!({"table": "prefix-chain-unary", "text": "abx", "documented_reading": "one variable abx (neither a nor ab is applied)"}));
         }
     });
     let mut report = Report::new(
-        "targeted lexical families over 7 tables (names of the default float table, of the value table, unary/constant/binary prefix chains a/ab/abc/abcd, symbolic prefix chains < <= << <<< and ! != !!, Greek, digits in names): every operator/constant name extended by one identifier character (letter, digit, underscore, Greek), truncated by one character, followed by space / ( / { / sign / number, used after an operand, two names in a row with and without separator; all sign chains of length <= 4 in every position class; ALL literal spellings of length <= 5 over [0-9.] through NumberMatcher (accepted iff digits with at most one dot; invalid spellings must be rejected); hostile brace contents; random concatenations of names. Oracle: an independent reference lexer (documented rule: longest name wins, non-binary names only when not continued by identifier characters, sign unary iff first / after operator / after '(') + recursive-descent reference parser; judged on variables and term over the term algebra for FlatEx (folded/unfolded) and DeepEx whenever the model yields a tree. distinct_nontrivial = distinct (table, text) pairs judged.",
+        "targeted lexical families over 7 tables (names of the default float table, of the value table, unary/constant/binary prefix chains a/ab/abc/abcd, symbolic prefix chains < <= << <<< and ! != !!, Greek, digits in names): every operator/constant name extended by one identifier character (letter, digit, underscore, Greek), truncated by one character, followed by space / ( / { / sign / number, used after an operand, two names in a row with and without separator; all sign chains of length <= 4 in every position class; ALL literal spellings of length <= 5 over [0-9.] through NumberMatcher (accepted iff digits with at most one dot; invalid spellings must be rejected); hostile brace contents; random concatenations of names; identifiers and spellings that Rust's float parser would read as numbers (nan, inf, 1e3, ...) through FlatEx<f64/f32>, DeepEx<f64> and eval_str. Oracle: an independent reference lexer (documented rule: longest name wins, non-binary names only when not continued by identifier characters, sign unary iff first / after operator / after '(') + recursive-descent reference parser; judged on variables and term over the term algebra for FlatEx (folded/unfolded) and DeepEx whenever the model yields a tree. distinct_nontrivial = distinct (table, text) pairs judged.",
     )
     .assume("texts the reference model does not accept are not judged (except invalid literal spellings, which must be rejected); call notation is left to C08")
     .require("texts_with_model_tree", 10000)
